@@ -67,6 +67,26 @@ CHECKS = {
   technique="Coq proof (psi tables regenerated and checked by vm_compute; linearity + 64 basis vectors + multiplicativity of evaluation at the roots of X^64+1; KEM decapsulation characterised as re-encryption with SHAKE256/SHA3 as section variables) + differential correspondence incl. 50/2000 full KEM runs with a Keccak inside the oracle",
   text="16 theorems C18_* (props/C18.v): ring multiplication = negacyclic convolution modulo X^64+1 for ALL pairs, coset NTT/INTT evaluate at / interpolate from the 64 roots and are mutually inverse, the three module multiplication strategies agree, ciphertext array round trip, embed/extract correct below the lane-noise threshold, decapsulation accepts exactly re-encryptions (a tampered ciphertext is rejected unless it is itself an honest encapsulation of the payload it decrypts to), unrelated keys. dec(enc) = key is proved under the lane-noise bound (PARTIAL by nature: the probability of the bound is a cryptographic estimate).",
   note="Modelled on field VALUES, relying on C01 for the base-field operations. SHAKE256 / SHA3-256 are oracles (section variables); the oracle's Keccak is tied to the sha3 crate by the xof and KEM cases. debug_assert shape checks of module products are not modelled."),
+ "C05": dict(
+  technique="Coq proof about a hand-written model of the MMR membership-proof routines over an abstract hash (verification exactness and totality for all u64 inputs, path theorems by induction over the forest; bounded-exhaustive vm_compute theorems for the update routines) + differential correspondence on operation histories with the free hash",
+  text="Theorems C05_* (props/C05.v): verify = the specification (hashing the leaf up its path reproduces the covering peak) for ALL (index, leaf, peaks, count, path) incl. malformed claims, never panics; the path of a leaf verifies; append returns the path of the new leaf. The update routines (update_from_append, batch_update_from_append, update_from_leaf_mutation, the three batch mutation routines) are PARTIAL: proved by exhaustive computation for all MMRs up to 48 / 20 / 10 leafs (free hash), full statements visible as *_full definitions. Tied by 27k cases x 2 profiles: histories of up to 300 mixed operations with tracked proofs handed to the batch routines in random order, 26k malformed verify claims.",
+  note="PARTIAL: the general (unbounded) theorems for the update routines are not proved; the bounded-exhaustive theorems are proofs only for the stated sizes. Index arithmetic relies on C16. Digests compared through the free term algebra."),
+ "C07": dict(
+  technique="Coq proof (coefficient-function polynomials over an abstract field with `ring`; degree bookkeeping for the NTT-based products under the C06 theorems; termination of the batch loops) about a hand-written raw-list model with regenerated dispatch thresholds + differential correspondence incl. 8 thread settings",
+  text="22 theorems C07_* (props/C07.v): naive / fast / dispatching multiply (mixed fields), the Mul impls, slow_square / square / fast_square, pow / fast_pow, scalar_mul, scale, shift, batch_multiply and par_batch_multiply for every thread count >= 1 return the exact ring product (coefficient convolution), for zero and constant operands too; unconditional for BFieldElement (transform lengths <= 2^31), conditional on an extension-field instance for XFieldElement. Tied by 3841 cases x 2 profiles around every threshold + RAYON_NUM_THREADS / taskset in {1,2,5,16}.",
+  note="XFieldElement / mixed-field NTT-based products are proved under Section hypotheses (field interface + NTT homomorphism for the extension field) that are not yet discharged. rayon order preservation assumed, validated by the thread sweep. Thresholds regenerated; algorithms hand-modelled."),
+ "C09": dict(
+  technique="Coq proof (division with remainder, uniqueness from degree arguments, Euclid with explicit fuel, power-series inversion, structured multiples, every reduction arm) against the stdlib polynomial specification + differential correspondence under the PRODUCTION constants",
+  text="27 theorems C09_* (props/C09.v): divide returns the unique (q, r); every reduction strategy (long division, fast_reduce in its three stages, NTT-friendly and structured moduli) returns that remainder; xgcd is total, monic-or-zero, divides both, Bezout; formal_power_series_inverse_minimal for every precision; structured multiples are monic multiples of exactly the requested degree; clean_divide: long-division arm, fallback arm (divisor vanishing on the coset), root-0 handling, for every cutoff. PARTIAL: the zero-free NTT arm of clean_divide and the NTT-domain rounds of the Newton inversion (full statements visible). Tied by 1813 cases x 2 profiles with the production cutoff (512), degree pairs around (4d, d), divisors with roots on the evaluation coset.",
+  note="NTT-based theorems carry the C06 hypotheses as Section hypotheses; the extension-field instance is not discharged. The harness is a normal dependency build (cfg(test) off)."),
+ "C11": dict(
+  technique="Coq proof (binary-counter / trailing-ones invariant for append, mutation by induction over the path, bag_peaks cases) about a hand-written accumulator model over an abstract hash + differential correspondence on histories",
+  text="8 theorems C11_* (props/C11.v): after any interleaving of appends and single-leaf mutations with valid proofs the accumulator's (leaf count, peaks) equal those of the perfect trees built from scratch over the current leaf list; bag_peaks = the documented fold (0, 1, >= 2 peaks); repeated / out-of-range indices are rejected. PARTIAL: the batch-mutation step of the history theorem and verify_batch_update_iff are proved only by exhaustive computation for all MMRs up to 10 leafs x all ordered lists of 1..3 distinct mutations (full statements visible). Tied by 256 history cases (up to 300 operations each) x 2 profiles incl. negative verify_batch_update grids.",
+  note="PARTIAL as stated. Digests through the free term algebra; Tip5::hash(&0u128) enters as the abstract constant hash0."),
+ "C17": dict(
+  technique="Coq proof (each operation's result depends only on the denoted polynomial: op (l ++ zeros) ~ op l, derived from the C07 equations on raw lists) + differential correspondence of every public function on p and on p with stored leading zeros, owned and borrowed",
+  text="37 theorems C17_* (props/C17.v): equality iff same denotation, equal polynomials hash equally, accessors report a non-zero leading coefficient, encode uses the normalised coefficients, and one value-semantics theorem per operation and argument position of the basic API and the multiplication family (after the repair of slow_square / square / truncate / Hash). Tied by 17363 cases x 2 profiles; the C08/C09 API functions are covered by direct comparison op(p) vs op(p with k stored zeros), k in {1,2,17} (945 comparisons, all SAME).",
+  note="Display and decode(encode p) are correspondence-only; C08/C09 functions are covered by the direct comparison only, not by theorems."),
 }
 
 ORDER = ["C%02d" % i for i in range(1, 21)]
